@@ -51,9 +51,12 @@ CHECKS = [
         technique="deductive verification: clang-AST -> VC generator (givc C front end) on the real C functions + z3"),
     chk("C14", "The real lookup functions of gitypelib.c (by name incl. the hashed path, by GType name, by error domain) are proved: "
         "a returned entry always carries exactly the probed string (the mandatory final comparison), lies among the local entries, "
-        "the linear searches find the first matching entry and return NULL only when no entry matches.",
-        "Trusted: givc C front end, stub headers, strcmp / g_typelib_get_dir_entry / get_section_by_id by assumed contract, byte layout "
-        "of the mapped file abstracted as locations, CMPH (hash returns some index below n_entries). Index construction (gthash.c), "
+        "the linear searches find the first matching entry and return NULL only when no entry matches; g_typelib_get_dir_entry returns "
+        "the location directory + (index-1)*entry_blob_size for every 16-bit index (conversions to 8/16-bit unsigned types are "
+        "reduced modulo 2**bits, so an offset squeezed through a narrow temporary is refuted).",
+        "Trusted: givc C front end, stub headers, strcmp / get_section_by_id by assumed contract, the directory layout as the "
+        "definition of ENTRY, header counts within their 16-bit range, byte layout "
+        "of the mapped file abstracted as locations, wider integer arithmetic mathematical, CMPH (hash returns some index below n_entries). Index construction (gthash.c), "
         "prefix matching and repository-level find_* are not yet under contract.", "DESIGN.md section 4 C14",
         technique="deductive verification: clang-AST -> VC generator (givc C front end) on the real C functions + z3"),
     chk("C08", "The real C functions of giroffsets.c (clang JSON AST, translated mechanically) are proved against the System V ABI "
@@ -98,7 +101,10 @@ CHECKS = [
         "uses no other way of writing; the version purge precedes the new stamp; removing an entry that has vanished meanwhile "
         "(FileNotFoundError from unlink, e.g. a concurrent scanner) is never an error.",
         "Trusted: givc, file-system primitives by assumed contract (os.unlink raising FileNotFoundError / PermissionError / other "
-        "OSError with the errno CPython attaches), os.stat as a function of the path (NO interference between steps: concurrent "
+        "OSError with the errno CPython attaches), time stamps: st_mtime_ns an exact integer, st_mtime an exact value with a fraction (float kind: only "
+        "comparison and int() truncation are modelled, anything else is refused; the two fields are unrelated in the model, so "
+        "code that falls back to the lossy float is refuted); genuine defect F11 (float comparison) repaired by /repo 2049799; "
+        "a native grid of real files (bounded) supplies failing inputs, os.stat as a function of the path (NO interference between steps: concurrent "
         "schedules and crash points are not decided beyond call order and tolerated ENOENT), rename atomicity.",
         "DESIGN.md section 4 C18"),
     chk("C19", "The library pattern is extracted from the real source, translated mechanically to an SMT regular expression with a "
@@ -114,7 +120,11 @@ CHECKS = [
     chk("C05", "Contracts on the real introspectable-pass functions: local closure of every analysis function, monotonicity, "
         "frame, skip propagation, and range/first-match contracts of the index lookups; loops by invariants with a ghost index.",
         "Trusted: givc, schema, Transformer lookups (uninterpreted). The global clause (validate iterates to a fixpoint) is a "
-        "known finding replayed natively; property/field passes and emitted GIR files are not yet under contract.", "DESIGN.md section 4 C05"),
+        "known finding replayed natively. Also under contract: _introspectable_pass3 (fields follow their types / anonymous types, "
+        "signals analysed as callables) and _introspectable_property_analysis (a property of an unbindable type is closed together "
+        "with its setter / getter; afterwards no method's set-property / get-property names a closed property; nested search loops "
+        "with loop postconditions). Namespace lookups never return properties, signals or virtual functions (assumed). Emitted GIR "
+        "files are not under contract.", "DESIGN.md section 4 C05"),
     chk("C20", "Contracts on the real xmlwriter functions: collect_attributes equals the fold of the declarative attribute step "
         "(None omitted, separators whitespace, quoteattr), stack discipline of push/pop, tagcontext closes on normal and "
         "exceptional exit, text is escaped.",
